@@ -8,6 +8,8 @@ package roundrobin
 
 import (
 	"fmt"
+	"net/http"
+	"net/http/httptest"
 	"net/url"
 	"testing"
 	"time"
@@ -150,5 +152,40 @@ func TestVerifReplayC02RR(t *testing.T) {
 	}
 	for d := 1; d <= 3; d++ {
 		run(nil, d)
+	}
+}
+
+// Nothing a downstream handler does to the request it was handed alters the pool (sticky and normal path).
+func TestVerifReplayC02RRDownstreamMutation(t *testing.T) {
+	for _, sticky := range []bool{false, true} {
+		var opts []LBOption
+		if sticky {
+			opts = append(opts, EnableStickySession(NewStickySession("aff")))
+		}
+		h := http.HandlerFunc(func(w http.ResponseWriter, req *http.Request) {
+			req.URL.Path = "/rewritten-by-handler"
+			req.URL.Host = "evil"
+		})
+		rr, _ := New(h, opts...)
+		a, _ := url.Parse("http://a/base")
+		_ = rr.UpsertServer(a)
+		before := rr.Servers()[0].String()
+		rec := httptest.NewRecorder()
+		rr.ServeHTTP(rec, httptest.NewRequest(http.MethodGet, "http://front/", nil))
+		if got := rr.Servers()[0].String(); got != before {
+			t.Fatalf("sticky=%v: first request: pool member changed from %s to %s by the downstream handler", sticky, before, got)
+		}
+		// second request carries the cookie issued by the first
+		req2 := httptest.NewRequest(http.MethodGet, "http://front/", nil)
+		for _, c := range rec.Result().Cookies() {
+			req2.AddCookie(c)
+		}
+		rr.ServeHTTP(httptest.NewRecorder(), req2)
+		if got := rr.Servers()[0].String(); got != before {
+			t.Fatalf("sticky=%v: request with affinity cookie: pool member changed from %s to %s by the downstream handler", sticky, before, got)
+		}
+		if err := rr.RemoveServer(a); err != nil {
+			t.Fatalf("sticky=%v: the server can no longer be removed under its own URL: %v", sticky, err)
+		}
 	}
 }
